@@ -247,7 +247,7 @@ func assembleResult(text string, cfg gmars.SimulatorConfig) (res string) {
 	for i := range w.Code {
 		code[i] = fromG(w.Code[i])
 	}
-	return fmt.Sprintf(`{"err":0,"code":%s,"start":%d,"name":%q,"author":%q}`, insListJSON(code), w.Start, w.Name, w.Author)
+	return fmt.Sprintf(`{"err":0,"code":%s,"start":%d,"name":%s,"author":%s}`, insListJSON(code), w.Start, jq(w.Name), jq(w.Author))
 }
 
 func cmdJobs(args []string) {
